@@ -34,7 +34,7 @@ def make_case(rng, i, tier):
     kind = "tokenise" if i % 3 == 0 else "random"
     case = {"cfg": cfg, "kind": kind, "impute": rng.random() < 0.5}
     if kind == "tokenise":
-        case["piece"] = tc.valid_piece(rng, cfg, stratum="A")
+        case["piece"] = tc.valid_piece(rng, cfg, stratum="A" if i % 2 else "B")
     else:
         cfg["pitch"] = [cfg["pitch"][0], min(cfg["pitch"][1], cfg["pitch"][0] + 5)]
         case["stream_seed"] = rng.randrange(10 ** 9)
